@@ -451,6 +451,16 @@ impl DnsCache {
             });
         }
 
+        // SRV / TXT / NSEC records that no PTR points to are not reached by the
+        // walk above: drop the expired ones as well (nobody is notified, no
+        // browser ever saw an instance for them), and forget emptied entries.
+        for map in [&mut self.srv, &mut self.txt, &mut self.nsec] {
+            map.retain(|_, records| {
+                records.retain(|r| !r.record.get_record().is_expired(now));
+                !records.is_empty()
+            });
+        }
+
         expired_instances
     }
 
